@@ -1,11 +1,11 @@
 #!/bin/bash
-# usage: confirm_seed8.sh <Cxx>  -- re-confirm a round-8 seed (refactoring A, refactoring+bug A+B) in its scratch worktree
-P=$1; W=/tmp/seed8_$P; T=/tmp/seed8_${P}_target; lc=$(echo $P | tr A-Z a-z)
+# usage: confirm_seed8.sh <ID> [round=8]  -- re-confirm a round-8 seed (refactoring A, refactoring+bug A+B) in its scratch worktree
+P=$1; R=${2:-8}; W=/tmp/seed${R}_$P; T=/tmp/seed${R}_${P}_target; lc=$(echo $P | tr A-Z a-z)
 cd $W || exit 2
 export CARGO_NET_OFFLINE=true CARGO_TARGET_DIR=$T
 cmp <(git diff -- src proto) OUT/patch.diff && echo "patch.diff matches worktree"
-suite() { timeout 1500 cargo test --workspace --no-fail-fast --offline 2>&1 | grep -E "^test result|Running|warning: unused|^error" | grep -v "seed8_" | awk '/Running/{r=$0;next} /test result/{ if ($0 !~ /ok\./) print r"\n"$0; n++; p+=$4 } /^error|^warning/{print} END{print "targets="n" passed="p}'; }
-demo() { timeout 600 cargo test --offline -p harness --test seed8_$lc 2>&1 | grep -E "^test result|panicked|^error" | head -5; }
+suite() { timeout 1500 cargo test --workspace --no-fail-fast --offline 2>&1 | grep -E "^test result|Running|warning: unused|^error" | grep -v "seed${R}_" | awk '/Running/{r=$0;next} /test result/{ if ($0 !~ /ok\./) print r"\n"$0; n++; p+=$4 } /^error|^warning/{print} END{print "targets="n" passed="p}'; }
+demo() { timeout 600 cargo test --offline -p harness --test seed${R}_$lc 2>&1 | grep -E "^test result|panicked|^error" | head -5; }
 echo "--- suite with A+B (existing targets; failures listed)"; suite
 echo "--- demo with A+B (expect FAIL)"; demo
 git checkout -- src proto
